@@ -11,7 +11,8 @@
   This layer keeps the list `owed` of records whose final report was handled while their mark has
   not been seen on disk, and refuses a delivery command for such a record.  `owed` is volatile only
   with respect to crashes: a clean restart (`cleanRestart`: TERM, in-flight attempts reported, exit 0,
-  start again on the same queue) keeps it.
+  start again on the same queue) keeps it — and, being no crash, opens no crash window: no crash-damage
+  event (`crashMarks`, …) is accepted after it.
 -/
 import Nq.Daemon
 
